@@ -30,6 +30,15 @@ let () =
               run (bool_of_string01 enc) (bool_of_string01 roll) (parse_init init) h in
             Printf.printf "H %s %s %s\n" id (string_of_flags flags) (rx_str sf)
           end
+      | ["T"; id; mode; cs] ->
+          let h = List.map n_of_string (split_on ',' cs) in
+          if spec_mode then begin
+            if mode <> "plain" then
+              Printf.printf "T %s %s\n" id (string_of_flags (spec_run [] h))
+          end else begin
+            let (flags, sf) = run (mode <> "plain") false rx_unsynced h in
+            Printf.printf "T %s %s %s\n" id (string_of_flags flags) (rx_str sf)
+          end
       | ["B"; id; first; cs; impl_flags] when spec_mode ->
           (* group clauses on true counters against the implementation's flags *)
           let h = List.map n_of_string (split_on ',' cs) in
